@@ -18,6 +18,7 @@ type GenOpts struct {
 	GenSel        int  // 0 = draw, 1 = always, -1 = never
 	Programs      bool // draw ordered / derived programs too
 	AvoidKnown    bool // mostly avoid configurations with an open known finding
+	ForceSSA      bool // server-side apply in every run
 	PlainOwner    bool // allow hook programs whose children carry a plain ownerReference to the parent
 	SameNames     bool // allow hook programs that give children in different namespaces the same name (cluster-scoped parents)
 	LookAlikes    bool // populate foreign-owned / other-namespace / non-matching look-alikes
@@ -107,7 +108,7 @@ func NewCompositeSetup(w *World, g GenOpts) *Setup {
 		mw = 3
 	}
 	opts.Proc.Workers = 1 + t.Pick(mw, "workers")
-	opts.Proc.SSA = g.AllowSSA && t.Pick(4, "ssa") == 3
+	opts.Proc.SSA = g.ForceSSA || g.AllowSSA && t.Pick(4, "ssa") == 3
 	s := &Setup{W: w, Cfg: cfg, Opts: opts}
 	if g.AvoidKnown && s.AnyRolling() && (opts.Proc.SSA || !cfg.Parent.Namespaced) && t.Pick(8, "keepknown") != 7 {
 		// configurations with an open known finding (cluster-scoped parent or SSA
@@ -450,6 +451,29 @@ func (s *Setup) ChildChaos(b *EnvBudget) []EnvOp {
 					"metadata": Object{"name": name, "labels": metaRO(old)["labels"],
 						"ownerReferences": []interface{}{Object{"apiVersion": "v1", "kind": "Other", "name": "z", "uid": "uid-other-z", "controller": true}}},
 					childContentField(res): Object{"recreated": "foreign"}}
+				w.Store.Create(res, ns, n, "user")
+			}},
+			EnvOp{"drift-replaced " + id, func(w *World) {
+				// deleted and created again by somebody who keeps its owner references and
+				// labels (a restore, `kubectl replace --force`): a new object - new UID,
+				// generation back to 1 - with older content in a field the hook specifies
+				b.take()
+				old := w.Store.Get(res, ns, name)
+				if old == nil || len(ownerRefsOf(old)) == 0 {
+					return
+				}
+				EditObject(w, res, ns, name, "user", func(o Object) { delete(meta(o), "finalizers") })
+				w.Store.Delete(res, ns, name, DeleteOpts{}, "user")
+				if w.Store.Get(res, ns, name) != nil {
+					return
+				}
+				md := Object{"name": name, "ownerReferences": metaRO(old)["ownerReferences"]}
+				if l := metaRO(old)["labels"]; l != nil {
+					md["labels"] = l
+				}
+				content := deepCopyAny(old[childContentField(res)])
+				n := Object{"apiVersion": old["apiVersion"], "kind": old["kind"], "metadata": md, childContentField(res): content}
+				setPath(n, fmt.Sprintf("restored%d", w.step), childContentField(res), "color")
 				w.Store.Create(res, ns, n, "user")
 			}},
 			EnvOp{"drift-owned " + id, func(w *World) {
